@@ -167,10 +167,11 @@ impl Function {
         let start = match vec_val.pop() {
             Ok(n) => i16::try_from(n)?,
             Err(_) => 1,
-        } as usize;
-        if start == 0 {
+        };
+        if start <= 0 {
             return Err(error!(IllegalFunctionCall; "START IS 0"));
         }
+        let start = start as usize;
         let ch_idx = match string.char_indices().nth(start - 1) {
             Some((pos, _ch)) => pos,
             None => return Ok(Val::Integer(0)),
